@@ -148,8 +148,18 @@ func runProm(tt *testing.T, tape *simrt.Tape, keep bool) (out simrt.Outcome) {
 			if tape.Prob(1, 15) {
 				r.BytesIn = 1<<40 + uint64(tape.Choose(1000)) // sums stay below 2^53: exact in float64
 			}
+			if tape.Prob(1, 20) {
+				// text that is not valid UTF-8 (a raw byte in a target URL, a server's reason phrase): a label value
+				// cannot carry it, the exporter is expected to count the result under the text with U+FFFD in place of
+				// the offending bytes (what encoding/json does as well)
+				if tape.Prob(1, 2) {
+					r.URL = "http://a/caf\xe9"
+				} else {
+					r.Error = "500 Internal \xff\xfe Error"
+				}
+			}
 			results[i] = r
-			k := promKey{r.Method, r.URL, strconv.Itoa(int(r.Code))}
+			k := promKey{r.Method, strings.ToValidUTF8(r.URL, "\uFFFD"), strconv.Itoa(int(r.Code))}
 			e := ref[k]
 			if e == nil {
 				e = &promRef{fails: map[string]float64{}}
@@ -161,7 +171,7 @@ func runProm(tt *testing.T, tape *simrt.Tape, keep bool) (out simrt.Outcome) {
 			e.sum += r.Latency.Seconds()
 			e.lat = append(e.lat, r.Latency.Seconds())
 			if r.Error != "" {
-				e.fails[r.Error]++
+				e.fails[strings.ToValidUTF8(r.Error, "\uFFFD")]++
 			}
 		}
 		pool := simrt.SitesIn("bp", "lib/prom/prom.go:") // every function of the file: helpers of Observe included
